@@ -229,6 +229,12 @@ func (c *Config) handleSvcEndpointUpdate(svcName string, added, removed []*servi
 		validAdded = append(validAdded, endpoint)
 	}
 
+	// The endpoints are known from now on even if there is none of them,
+	// the following updates must be emitted as delta.
+	if sw.Endpoints == nil {
+		sw.Endpoints = make([]*service.Endpoint, 0)
+	}
+
 	if sw.Config == nil {
 		return
 	}
